@@ -85,6 +85,20 @@ extern "C" int LLVMFuzzerTestOneInput(const uint8_t * data, size_t size) {
 		if (which >= 6) {
 			char * o = mmd_string_convert(doc.c_str(), ext & ~(unsigned long)EXT_COMPATIBILITY, FORMAT_OPML, lang);
 			if (o) { DString * t = mmd_string_convert_opml_to_text(o); free(o); if (t) { require_valid(std::string(t->str, t->currentStringLength), "opml-reimport", doc); d_string_free(t, true); } }
+			// the document as the payload of a hand-written OPML file, with Latin-1 characters spelled as numeric character references
+			// (valid XML for the same characters): the importer and everything after it must still produce valid UTF-8
+			{
+				auto xesc = [](const std::string & t) { std::string o; for (size_t i = 0; i < t.size(); i++) { unsigned char c = t[i];
+					if (c == '&') o += "&amp;"; else if (c == '<') o += "&lt;"; else if (c == '>') o += "&gt;"; else if (c == '"') o += "&quot;"; else if (c == '\n') o += "&#10;"; else if (c == '\t') o += "&#9;";
+					else if ((c == 0xC2 || c == 0xC3) && i + 1 < t.size() && ((unsigned char)t[i + 1] & 0xC0) == 0x80) { o += "&#" + std::to_string(((c & 0x1F) << 6) | ((unsigned char)t[i + 1] & 0x3F)) + ";"; i++; }
+					else o += (char)c; } return o; };
+				size_t nl = doc.find('\n'); std::string title = doc.substr(0, nl == std::string::npos ? doc.size() : nl), body = nl == std::string::npos ? "" : doc.substr(nl);
+				std::string ox = "<?xml version=\"1.0\" encoding=\"utf-8\"?>\n<opml version=\"1.0\">\n<body>\n<outline text=\"" + xesc(title) + "\" _note=\"" + xesc(body) + "\"></outline>\n</body>\n</opml>\n";
+				DString * t = mmd_string_convert_opml_to_text(ox.c_str());
+				if (t) { require_valid(std::string(t->str, t->currentStringLength), "opml-import", ox); d_string_free(t, true); }
+				char * h = mmd_string_convert(ox.c_str(), (ext | EXT_PARSE_OPML) & ~(unsigned long)EXT_COMPATIBILITY, FORMAT_HTML, lang);
+				if (h) { require_valid(std::string(h), "opml-import-html", ox); free(h); }
+			}
 			char * u = mmd_string_update_metavalue_for_key(doc.c_str(), "title", "caf\xc3\xa9"); if (u) { require_valid(std::string(u), "update-metavalue", doc); free(u); }
 		}
 	}
